@@ -19,6 +19,7 @@ import (
 	gsync "github.com/acquirecloud/golibs/sync"
 	"github.com/acquirecloud/golibs/timeout"
 	"github.com/acquirecloud/golibs/zverif/vsched"
+	"verifh/internal/kvh"
 )
 
 var ErrInjected = errors.New("injected storage failure")
@@ -210,7 +211,12 @@ type Scenario struct {
 	Shutdown int // -1: none; else index of the provider that is shut down by a pseudo thread
 	Lease    time.Duration
 	Residue  bool // C04: run residue probes at the end
+	// Storage: "" / "inmem" (default) or "redis" (kvs/redis against an in-process miniredis; every Redis command
+	// of every provider's client is a scheduling point, TTLs follow the virtual clock)
+	Storage string
 }
+
+var redisBE *kvh.RedisBackend
 
 func (sc *Scenario) String() string {
 	ps := make([]string, len(sc.Progs))
@@ -218,6 +224,9 @@ func (sc *Scenario) String() string {
 		ps[i] = p.String()
 	}
 	s := fmt.Sprintf("topo=%s progs=%s faults=%v", sc.Topo.Name[:1], strings.Join(ps, "|"), sc.Faults)
+	if sc.Storage == "redis" {
+		s = "redis " + s
+	}
 	if sc.Shutdown >= 0 {
 		s += fmt.Sprintf(" shutdown=p%d", sc.Shutdown)
 	}
@@ -253,11 +262,22 @@ func (sc *Scenario) Build(obs *Obs) func() {
 		}
 		timeout.VerifReset(10, 30*time.Second)
 		dist.VerifSetLease(lease)
-		st := inmem.New()
+		var st kvs.Storage
+		inner := func() kvs.Storage { return st }
+		if sc.Storage == "redis" {
+			if redisBE == nil {
+				redisBE = kvh.NewRedis(true)
+			}
+			vsched.SetClockForward(redisBE.FastForward)
+			st = redisBE.Fresh()
+			inner = func() kvs.Storage { return redisBE.NewClient() } // one client (connection pool) per provider, like one per process
+		} else {
+			st = inmem.New()
+		}
 		provs := make([]dist.LockProvider, sc.Topo.Providers)
 		gates := make([]*Gate, sc.Topo.Providers)
 		for i := range provs {
-			gates[i] = &Gate{Inner: st, Name: fmt.Sprintf("p%d", i), Faults: sc.Faults, Calls: &obs.StorageCalls}
+			gates[i] = &Gate{Inner: inner(), Name: fmt.Sprintf("p%d", i), Faults: sc.Faults, Calls: &obs.StorageCalls}
 			provs[i] = dist.NewKvsLockProvider(gates[i], "/locks/")
 		}
 		lockers := make([]gsync.Locker, len(sc.Topo.ProviderOf))
@@ -380,6 +400,11 @@ func attempt(lk gsync.Locker, a Acq, w, ai int) (held bool, res string) {
 	panic("bad mode")
 }
 
+func waitersOf(st kvs.Storage) map[string]int {
+	defer func() { recover() }() // not the in-memory backend: no waiter table
+	return inmem.VerifWaiters(st)
+}
+
 // residue checks what is left behind once every worker is done (C04).
 func residue(st kvs.Storage, lockers []gsync.Locker, sc *Scenario, obs *Obs) string {
 	var probs []string
@@ -395,7 +420,7 @@ func residue(st kvs.Storage, lockers []gsync.Locker, sc *Scenario, obs *Obs) str
 	} else if !gerrors.Is(err, gerrors.ErrNotExist) {
 		probs = append(probs, "Get(lock key): "+err.Error())
 	}
-	if w := inmem.VerifWaiters(st); len(w) != 0 {
+	if w := waitersOf(st); len(w) != 0 {
 		ks := []string{}
 		for k, n := range w {
 			ks = append(ks, fmt.Sprintf("%s:%d", k, n))
